@@ -47,6 +47,33 @@ impl Out {
 const BAD_URLS: &[&str] = &["", "not a url", "http://example.org", "redis://", "redis://h:notaport", "redis://h/notanumber", "redis://h:99999", "unix://", "redis+unix://", "rediss://", "redis://:@:/", "redis://h/1/2", "redis://h?protocol=resp9", "\u{0}", "redis://[::1", "redis://h\u{f6}st/\u{1F600}"];
 const GOOD_URLS: &[&str] = &["redis://[::1]:6379/0", "redis://us%40er:p%3Aw@h/0", "REDIS://h", "redis://h/", "redis://h/0?protocol=resp2", "redis://127.0.0.1", "redis://127.0.0.1:7000/2", "redis://user:pw@localhost:6380/1", "redis://:pw@h", "redis://h?protocol=resp3", "unix:///tmp/redis.sock", "redis+unix:///tmp/r.sock?db=3&pass=x&user=u"];
 
+/// The shapes a URL takes on its way through environment variables, shell quoting and config files:
+/// wrapped in quotes or brackets, padded, cut short, a lone delimiter. Whether the result is well-formed
+/// is decided by the redis crate's own parser, not here.
+const WRAPS: &[(&str, &str)] = &[("\"", "\""), ("'", "'"), ("<", ">"), ("(", ")"), ("[", "]"), ("`", "`"), ("\"", ""), ("", "\""), (" ", ""), ("", " "), ("", "\n"), ("\t", "\t"), ("\"\"", "\"\"")];
+const LONE: &[&str] = &["\"", "'", "\"\"", "''", "<", ">", "<>", "[", "]", "[]", "`", ":", "/", "//", "://", "?", "#", "@", "%", "\\", " ", "\n", "r", "redis", "redis:", "redis:/"];
+
+fn mangled_url(rng: &mut Rng) -> String {
+    let good = rng.pick(GOOD_URLS).to_string();
+    match rng.below(4) {
+        0 => {
+            let (a, b) = *rng.pick(WRAPS);
+            format!("{}{}{}", a, good, b)
+        }
+        1 => rng.pick(LONE).to_string(),
+        2 => {
+            let n = good.chars().count();
+            let k = rng.usize_below(n.min(12) + 1);
+            good.chars().take(k).collect()
+        }
+        _ => {
+            let (a, b) = *rng.pick(WRAPS);
+            let inner = rng.pick(LONE);
+            format!("{}{}{}", a, inner, b)
+        }
+    }
+}
+
 // ------------------------------------------------------------------ pure rules
 
 pub fn pure_rules(seed: u64, n: u64) -> Out {
@@ -57,7 +84,7 @@ pub fn pure_rules(seed: u64, n: u64) -> Out {
         let flavour = i % 3;
         let url_set = rng.chance(1, 2);
         let conn_set = rng.chance(1, 2);
-        let url = if rng.chance(1, 2) { rng.pick(BAD_URLS).to_string() } else { rng.pick(GOOD_URLS).to_string() };
+        let url = if rng.chance(1, 4) { mangled_url(&mut rng) } else if rng.chance(1, 2) { rng.pick(BAD_URLS).to_string() } else { rng.pick(GOOD_URLS).to_string() };
         // cluster / sentinel take a list: mix well-formed and malformed entries
         let mut url_list: Vec<String> = vec![url.clone()];
         if flavour != 0 {
@@ -146,6 +173,49 @@ pub fn pure_rules(seed: u64, n: u64) -> Out {
         ("sentinel urls=[]", Box::new(|| deadpool_redis::sentinel::Config { urls: Some(vec![]), connections: None, server_type: Default::default(), master_name: "m".into(), node_connection_info: None, pool: None }.builder().map(|_| ()))),
         ("sentinel connections=[]", Box::new(|| deadpool_redis::sentinel::Config { urls: None, connections: Some(vec![]), server_type: Default::default(), master_name: "m".into(), node_connection_info: None, pool: None }.builder().map(|_| ()))),
     ];
+    // every shape of the mangling tables once, for every flavour, as the only thing the Config names
+    let mut shapes: Vec<String> = LONE.iter().map(|s| s.to_string()).collect();
+    for (a, b) in WRAPS {
+        for g in GOOD_URLS {
+            shapes.push(format!("{}{}{}", a, g, b));
+        }
+        for l in LONE {
+            shapes.push(format!("{}{}{}", a, l, b));
+        }
+    }
+    for url in shapes {
+        let url_ok = url.as_str().into_connection_info().is_ok();
+        for flavour in 0..3u64 {
+            let desc = format!("flavour={} url={:?} connection=None (shape sweep)", ["redis", "cluster", "sentinel"][flavour as usize], url);
+            o.case(&desc, true);
+            let u = url.clone();
+            let res: Result<Result<(), ConfigError>, _> = catch_unwind(AssertUnwindSafe(move || match flavour {
+                0 => Config { url: Some(u), connection: None, pool: None }.builder().map(|_| ()),
+                1 => deadpool_redis::cluster::Config { urls: Some(vec![u]), connections: None, pool: None, read_from_replicas: false }.builder().map(|_| ()),
+                _ => deadpool_redis::sentinel::Config { urls: Some(vec![u]), connections: None, server_type: Default::default(), master_name: "m".into(), node_connection_info: None, pool: None }.builder().map(|_| ()),
+            }));
+            match res {
+                Err(p) => o.bad("builder_panicked", format!("builder() panicked: {}", vh_common::panic_message(&*p)), &desc),
+                Ok(r) => {
+                    if url_ok {
+                        o.bump("good_url");
+                        if let Err(e) = r {
+                            if flavour != 0 && url.contains("unix") && matches!(e, ConfigError::Redis(_)) {
+                                o.bump("url_refused_by_backend");
+                            } else {
+                                o.bad("good_url_rejected", format!("a URL the redis crate accepts was rejected: {}", e), &desc);
+                            }
+                        }
+                    } else {
+                        o.bump("bad_url");
+                        if !matches!(r, Err(ConfigError::Redis(_))) {
+                            o.bad("bad_url_not_reported", format!("malformed URL {:?} but builder() returned {:?}", url, r.map_err(|e| e.to_string())), &desc);
+                        }
+                    }
+                }
+            }
+        }
+    }
     for (name, f) in empties {
         o.case(name, true);
         match catch_unwind(AssertUnwindSafe(|| f())) {
@@ -548,24 +618,32 @@ pub fn behaviour(seed: u64, n: u64) -> Out {
             }
         }
         // ---- cluster: exactly the named nodes
-        for via_url in [true, false] {
+        for (via_url, resp3, auth) in [(true, false, false), (false, false, false), (true, true, true), (false, true, true), (true, true, false), (false, true, false), (true, false, true), (false, false, true)] {
             let (a, pa, h1) = start(0).await.expect("listener");
             let (b, pb, h2) = start(0).await.expect("listener");
             let (decoy, _, h3) = start(0).await.expect("listener");
+            let node_info = RedisConnectionInfo {
+                db: 0,
+                username: if auth { Some("alice".into()) } else { None },
+                password: if auth { Some("s3cret".into()) } else { None },
+                protocol: if resp3 { ProtocolVersion::RESP3 } else { ProtocolVersion::RESP2 },
+            };
             let cfg = if via_url {
-                deadpool_redis::cluster::Config::from_urls(vec![format!("redis://127.0.0.1:{}", pa), format!("redis://127.0.0.1:{}", pb)])
+                let cred = if auth { "alice:s3cret@" } else { "" };
+                let q = if resp3 { "?protocol=resp3" } else { "" };
+                deadpool_redis::cluster::Config::from_urls(vec![format!("redis://{}127.0.0.1:{}{}", cred, pa, q), format!("redis://{}127.0.0.1:{}{}", cred, pb, q)])
             } else {
                 deadpool_redis::cluster::Config {
                     urls: None,
                     connections: Some(vec![
-                        ConnectionInfo { addr: ConnectionAddr::Tcp("127.0.0.1".into(), pa), redis: Default::default() },
-                        ConnectionInfo { addr: ConnectionAddr::Tcp("127.0.0.1".into(), pb), redis: Default::default() },
+                        ConnectionInfo { addr: ConnectionAddr::Tcp("127.0.0.1".into(), pa), redis: node_info.clone() },
+                        ConnectionInfo { addr: ConnectionAddr::Tcp("127.0.0.1".into(), pb), redis: node_info.clone() },
                     ]),
                     pool: None,
                     read_from_replicas: false,
                 }
             };
-            let desc = format!("cluster via_url={} nodes={},{}", via_url, pa, pb);
+            let desc = format!("cluster via_url={} resp3={} auth={} nodes={},{}", via_url, resp3, auth, pa, pb);
             o.case(&desc, true);
             match cfg.create_pool(Some(Runtime::Tokio1)) {
                 Err(e) => o.bad("named_server_not_usable", format!("cluster create_pool: {}", e), &desc),
@@ -577,6 +655,25 @@ pub fn behaviour(seed: u64, n: u64) -> Out {
                     if decoy.n_conns() != 0 {
                         o.bad("other_server_contacted", "a node that is not named was contacted".into(), &desc);
                     }
+                    // what the named nodes were told: protocol and credentials of the description
+                    for (name, node) in [("first", &a), ("second", &b)] {
+                        if node.n_conns() == 0 {
+                            continue;
+                        }
+                        let flat: Vec<String> = node.all_commands().iter().map(|c| c.2.join(" ")).collect();
+                        let hello3 = flat.iter().any(|c| c.starts_with("HELLO 3"));
+                        if hello3 != resp3 {
+                            o.bad("protocol_not_in_effect", format!("resp3={} but the {} node saw {:?}", resp3, name, flat), &desc);
+                        }
+                        let authed = flat.iter().any(|c| (c.starts_with("AUTH") || c.starts_with("HELLO")) && c.contains("s3cret") && c.contains("alice"));
+                        let any_auth = flat.iter().any(|c| c.starts_with("AUTH") || c.to_uppercase().contains(" AUTH "));
+                        if auth && !authed {
+                            o.bad("credentials_not_in_effect", format!("user and password configured but the {} node saw {:?}", name, flat), &desc);
+                        }
+                        if !auth && any_auth {
+                            o.bad("credentials_invented", format!("no credentials configured but the {} node saw {:?}", name, flat), &desc);
+                        }
+                    }
                 }
             }
             h1.abort();
@@ -584,24 +681,34 @@ pub fn behaviour(seed: u64, n: u64) -> Out {
             h3.abort();
         }
         // ---- sentinel: the named sentinel is asked for the configured master name, then that master is used
-        for via_url in [true, false] {
+        for (via_url, resp3, auth) in [(true, false, false), (false, false, false), (true, true, true), (false, true, true), (false, true, false), (true, true, false)] {
             let (sent, ps, h1) = start(0).await.expect("listener");
             let (master, pm, h2) = start(0).await.expect("listener");
             let (decoy, _, h3) = start(0).await.expect("listener");
             *sent.sentinel_master.lock().unwrap() = Some(("svc-x".into(), "127.0.0.1".into(), pm));
             let cfg = if via_url {
-                deadpool_redis::sentinel::Config::from_urls(vec![format!("redis://127.0.0.1:{}", ps)], "svc-x".to_string(), deadpool_redis::sentinel::SentinelServerType::Master)
+                let cred = if auth { "alice:s3cret@" } else { "" };
+                let q = if resp3 { "?protocol=resp3" } else { "" };
+                deadpool_redis::sentinel::Config::from_urls(vec![format!("redis://{}127.0.0.1:{}{}", cred, ps, q)], "svc-x".to_string(), deadpool_redis::sentinel::SentinelServerType::Master)
             } else {
                 deadpool_redis::sentinel::Config {
                     urls: None,
-                    connections: Some(vec![ConnectionInfo { addr: ConnectionAddr::Tcp("127.0.0.1".into(), ps), redis: Default::default() }]),
+                    connections: Some(vec![ConnectionInfo {
+                        addr: ConnectionAddr::Tcp("127.0.0.1".into(), ps),
+                        redis: RedisConnectionInfo {
+                            db: 0,
+                            username: if auth { Some("alice".into()) } else { None },
+                            password: if auth { Some("s3cret".into()) } else { None },
+                            protocol: if resp3 { ProtocolVersion::RESP3 } else { ProtocolVersion::RESP2 },
+                        },
+                    }]),
                     server_type: deadpool_redis::sentinel::SentinelServerType::Master,
                     master_name: "svc-x".into(),
                     node_connection_info: Some(deadpool_redis::sentinel::SentinelNodeConnectionInfo { tls_mode: None, redis_connection_info: Some(RedisConnectionInfo { db: 0, username: None, password: Some("node-pw".into()), protocol: ProtocolVersion::RESP2 }) }),
                     pool: None,
                 }
             };
-            let desc = format!("sentinel via_url={} sentinel={} master={}", via_url, ps, pm);
+            let desc = format!("sentinel via_url={} resp3={} auth={} sentinel={} master={}", via_url, resp3, auth, ps, pm);
             o.case(&desc, true);
             match cfg.create_pool(Some(Runtime::Tokio1)) {
                 Err(e) => o.bad("named_server_not_usable", format!("sentinel create_pool: {}", e), &desc),
@@ -611,6 +718,15 @@ pub fn behaviour(seed: u64, n: u64) -> Out {
                     if sent.n_conns() == 0 {
                         o.bad("named_server_not_contacted", format!("the named sentinel was never contacted (get: {:?})", rs), &desc);
                     } else {
+                        let flat: Vec<String> = sent.all_commands().iter().map(|c| c.2.join(" ")).collect();
+                        let hello3 = flat.iter().any(|c| c.starts_with("HELLO 3"));
+                        if hello3 != resp3 {
+                            o.bad("protocol_not_in_effect", format!("resp3={} but the named sentinel saw {:?}", resp3, flat), &desc);
+                        }
+                        let authed = flat.iter().any(|c| (c.starts_with("AUTH") || c.starts_with("HELLO")) && c.contains("s3cret") && c.contains("alice"));
+                        if auth && !authed {
+                            o.bad("credentials_not_in_effect", format!("user and password configured but the named sentinel saw {:?}", flat), &desc);
+                        }
                         let asked: Vec<String> = sent.all_commands().iter().filter(|c| c.2[0] == "SENTINEL").map(|c| c.2.join(" ")).collect();
                         if master.n_conns() == 0 {
                             o.inconclusive.push(format!("sentinel scenario: the scripted sentinel was asked {:?} but the client did not go on to the master (get: {:?}); master-side clauses not observed", asked, rs));
